@@ -276,14 +276,9 @@ def runModel (lines : List String) : List String :=
 def quirkList : List (String × Quirks) :=
   [ ("num-opeq-real", { Quirks.real with numOpEqReal := false }),
     ("addeq-num-str", { Quirks.real with addEqNumStr := false }),
-    ("str-range-rev-neg", { Quirks.real with strRangeRevNeg := false }),
     ("buf-store-zero", { Quirks.real with bufStoreZero := false }),
-    ("fold-add-zero-real", { Quirks.real with foldAddZeroReal := false }),
     ("optimistic-types", { Quirks.real with optimisticTypes := false }),
-    ("rev-range-wrap", { Quirks.real with revRangeWrap := false }),
-    ("pp-if-32bit", { Quirks.real with ppIf32 := false }),
-    ("lv-range-const-rev", { Quirks.real with lvRangeConstRev := false }),
-    ("zero-minus-neg", { Quirks.real with zeroMinusNeg := false }) ]
+    ("rev-range-wrap", { Quirks.real with revRangeWrap := false }) ]
 
 def clip (s : String) : String := if s.length > 160 then (s.take 160).toString ++ "..." else s
 
